@@ -19,7 +19,7 @@ TECHNIQUE = (
 )
 LEVEL_TEXT = (
     "All populations of 0..N devices (N=2 quick, 3 thorough) over address in {target, A, B} x programming mode x connection-oriented behaviour in "
-    "{answer, refuse, silent} (up to 2 devices also over the faulty variants T_NAK, wrong T_ACK number, other service, ack only, late answer, wrong-numbered answer), each with bus latencies {same instant, 20 ms staggered, spread over 0.5..2.5 s} and, for answer/refuse/silent populations, answers delivered BEFORE the L_Data.con of the request (all devices, or only the first with the others 50 ms later; confirmation in the same call, one loop turn or 10 ms later); serial-number read/write on all populations of <= N devices "
+    "{answer, refuse, silent} (up to 2 devices also over the faulty variants T_NAK, wrong T_ACK number, other service, ack only, late answer, wrong-numbered answer), each with bus latencies {same instant, 20 ms staggered, spread over 0.5..2.5 s} and, for answer/refuse/silent populations, answers delivered BEFORE the L_Data.con of the request (all devices, or only the first with the others 50 ms later; confirmation in the same call, one loop turn or 10 ms later); sequences of 2 (thorough 3) procedure calls on the same XKNX (check / write / scan, then devices enter programming mode, then a write of the same or a free address) on all populations of 1..2 devices over 12 kinds; serial-number read/write on all populations of <= N devices "
     "over serial in {wanted, other} x chatty x address; dmp_authorize2_r_co on all 256 level pairs. Bounded exhaustive enumeration, hence fault_enumeration."
 )
 LEVEL_NOTE = (
@@ -29,7 +29,7 @@ LEVEL_NOTE = (
     "and no other device holds the address; every A_Restart goes to the target address; serial-number read returns the address of the device with that "
     "serial or None, serial-number write succeeds only if that device answered with the new address; dmp_authorize2_r_co == min(free, key). A holder whose "
     "A_DeviceDescriptor_Read probe ends in the timeout (silent, acknowledges only, answers late or with a wrong number) is judged under its own "
-    "mechanism (`...unresponsive-device...`): the KNX address check reads that timeout as a free address. Not judged (recorded): a write that repeats the address the programmed device already shares with another device (pre-existing conflict, nobody's address changes), whether the procedure reports success, exceptions raised in the receive path (C43)."
+    "mechanism (`...unresponsive-device...`): the KNX address check reads that timeout as a free address. Not judged (recorded): connections left in Management._connections after a procedure, a write that repeats the address the programmed device already shares with another device (pre-existing conflict, nobody's address changes), whether the procedure reports success, exceptions raised in the receive path (C43)."
 )
 SHARDS = {"quick": 1, "thorough": 16}
 TIMEOUT = {"quick": 300, "thorough": 3000}
@@ -48,7 +48,7 @@ SERIAL = bytes.fromhex("00fa12345678")
 OTHER_SERIAL = bytes.fromhex("00fa0000beef")
 
 
-def _run(loop, coro_fn, devices, latency):
+def _run(loop, coro_fn, devices, latency, holder=None):
     xknx = XKNX()
     link = CemiLink(xknx, loop)
     if latency == "spread":
@@ -62,6 +62,8 @@ def _run(loop, coro_fn, devices, latency):
     else:
         bus = SimBus(link, devices, latency=latency)
     out = {"harness": None}
+    if holder is not None:
+        holder["bus"] = bus
 
     async def main():
         try:
@@ -107,6 +109,40 @@ def _pop_witness(case, out, **more):
     return w
 
 
+def _judge_write_broadcasts(ctx, case, out, before, writes, prefix=""):
+    """Every A_IndividualAddress_Write against the bus truth recorded when it was broadcast."""
+    for b in writes:
+        ctx.count("address_write_broadcasts")
+        state = b["state"]
+        prog = [i for i, d in enumerate(state) if d["prog"]]
+        written = str(b["payload"].address)
+        holders = [i for i, d in enumerate(state) if d["address"] == written and i not in prog[:1]]
+        if len(prog) != 1:
+            how = "no" if not prog else "several"
+            ctx.violation(f"{prefix}address-written-with-{how}-device-in-programming-mode", _pop_witness(case, out, before=before),
+                          f"A_IndividualAddress_Write({written}) was broadcast while {len(prog)} devices were in programming mode")
+        elif holders and state[prog[0]]["address"] == written:
+            # the device being programmed already had this address and shares it with the holder(s): both answer every probe
+            # together, and the write changes nobody's address - no conflict is created that was not there. Recorded.
+            ctx.count("write_repeats_address_on_preexisting_conflict")
+        elif holders:
+            kinds = sorted({state[i]["co"] for i in holders})
+            for k in kinds:
+                ctx.count(f"write_with_holder_{k}")
+            detectable = [k for k in kinds if k not in PROBE_TIMES_OUT]
+            if not detectable:
+                # every holder lets the A_DeviceDescriptor_Read probe run into the timeout the KNX procedure reads as "free"
+                mech = "address-written-while-unresponsive-device-holds-it"
+            else:
+                names = {"answer": "answering", "refuse": "refusing", "nak": "T_NAK-sending", "ack_wrong_number": "wrongly-acknowledging",
+                         "other_service": "other-service-answering"}
+                mech = f"address-written-while-{'-or-'.join(names[k] for k in detectable)}-device-holds-it"
+            ctx.violation(mech if "unresponsive" in mech else prefix + mech, _pop_witness(case, out, before=before, holders=holders),
+                          f"A_IndividualAddress_Write({written}) was broadcast although device(s) {holders} ({kinds}) already use that address")
+        else:
+            ctx.count("address_write_justified")
+
+
 def address_write_case(ctx, case):
     """One population against nm_individual_address_write."""
     devices = [SimDevice(i, a, bool(p), co, bytes([0, 0xFA, 0, 0, 0, i + 1])) for i, (a, p, co) in enumerate(case["devices"])]
@@ -131,36 +167,7 @@ def address_write_case(ctx, case):
         ctx.count("receive_path_exceptions_seen_not_judged_here", len(out["link"].rx_exceptions))
     writes = [b for b in bus.broadcasts if b["apci"] == "IndividualAddressWrite"]
     ctx.count("address_read_broadcasts", sum(1 for b in bus.broadcasts if b["apci"] == "IndividualAddressRead"))
-    for b in writes:
-        ctx.count("address_write_broadcasts")
-        state = b["state"]
-        prog = [i for i, d in enumerate(state) if d["prog"]]
-        written = str(b["payload"].address)
-        holders = [i for i, d in enumerate(state) if d["address"] == written and i not in prog[:1]]
-        if len(prog) != 1:
-            how = "no" if not prog else "several"
-            ctx.violation(f"address-written-with-{how}-device-in-programming-mode", _pop_witness(case, out, before=before),
-                          f"A_IndividualAddress_Write({written}) was broadcast while {len(prog)} devices were in programming mode")
-        elif holders and state[prog[0]]["address"] == written:
-            # the device being programmed already had this address and shares it with the holder(s): both answer every probe
-            # together, and the write changes nobody's address - no conflict is created that was not there. Recorded.
-            ctx.count("write_repeats_address_on_preexisting_conflict")
-        elif holders:
-            kinds = sorted({state[i]["co"] for i in holders})
-            for k in kinds:
-                ctx.count(f"write_with_holder_{k}")
-            detectable = [k for k in kinds if k not in PROBE_TIMES_OUT]
-            if not detectable:
-                # every holder lets the A_DeviceDescriptor_Read probe run into the timeout the KNX procedure reads as "free"
-                mech = "address-written-while-unresponsive-device-holds-it"
-            else:
-                names = {"answer": "answering", "refuse": "refusing", "nak": "T_NAK-sending", "ack_wrong_number": "wrongly-acknowledging",
-                         "other_service": "other-service-answering"}
-                mech = f"address-written-while-{'-or-'.join(names[k] for k in detectable)}-device-holds-it"
-            ctx.violation(mech, _pop_witness(case, out, before=before, holders=holders),
-                          f"A_IndividualAddress_Write({written}) was broadcast although device(s) {holders} ({kinds}) already use that address")
-        else:
-            ctx.count("address_write_justified")
+    _judge_write_broadcasts(ctx, case, out, before, writes)
     if not writes:
         ctx.count("no_address_write")
     # conflicts created (ground truth after vs before)
@@ -187,6 +194,80 @@ def address_write_case(ctx, case):
     if out["outcome"] == "returned":
         ctx.count("write_procedure_success")
     ctx.distinct(("aw", tuple(sorted(case["devices"])), case["latency"], out["outcome"], len(writes)))
+    return out
+
+
+FREE = "1.1.40"
+
+
+def sequence_case(ctx, case):
+    """Two or three procedure calls on the SAME XKNX / Management against a bus that changes between the calls."""
+    devices = [SimDevice(i, a, bool(p), co, bytes([0, 0xFA, 0, 0, 0, i + 1])) for i, (a, p, co) in enumerate(case["devices"])]
+    before = [d.snapshot() for d in devices]
+    steps = []
+    holder = {}
+
+    async def body(xknx):
+        bus = holder["bus"]
+        for step in case["steps"]:
+            for idx, change in (step.get("change") or {}).items():
+                for key, val in change.items():
+                    setattr(devices[int(idx)], key, bool(val) if key == "prog" else val)
+            rec = {"op": step["op"], "target": step["target"], "b0": len(bus.broadcasts), "p0": len(bus.p2p),
+                   "truth": [d.snapshot() for d in devices]}
+            try:
+                if step["op"] == "check":
+                    rec["result"] = await procedures.nm_individual_address_check(xknx, step["target"])
+                elif step["op"] == "scan":
+                    rec["result"] = [str(a) for a in await procedures.nm_individual_address_read(xknx)]
+                else:
+                    await procedures.nm_individual_address_write(xknx, step["target"])
+                rec["outcome"] = "returned"
+            except ManagementConnectionError as exc:
+                rec["outcome"] = type(exc).__name__
+            except BaseException as exc:  # noqa: BLE001
+                rec["outcome"] = "other:" + type(exc).__name__
+            rec["b1"], rec["p1"] = len(bus.broadcasts), len(bus.p2p)
+            rec["connections_left"] = len(getattr(xknx.management, "_connections", {}))  # recorded only
+            steps.append(rec)
+            await asyncio.sleep(1.0)
+
+    loop = new_loop()
+    out = _run(loop, body, devices, case["latency"], holder=holder)
+    ctx.ev()
+    bus = out["bus"]
+    if out["harness"]:
+        ctx.violation(f"procedure-sequence-does-not-terminate-{out['harness']}", _pop_witness(case, out), "the sequence of procedure calls did not finish")
+        return out
+    ctx.count("procedure_sequences")
+    for k, rec in enumerate(steps):
+        ctx.count(f"sequence_step_{rec['op']}_{rec['outcome'].split(':')[0]}")
+        if rec["connections_left"]:
+            ctx.count("connections_left_registered_after_a_procedure")
+        writes = [b for b in bus.broadcasts[rec["b0"]:rec["b1"]] if b["apci"] == "IndividualAddressWrite"]
+        wcase = dict(case, step=k)
+        if k:
+            ctx.count("later_calls_on_the_same_xknx")
+        for b in writes:
+            if str(b["payload"].address) != rec["target"] or rec["op"] != "write":
+                ctx.violation("address-write-broadcast-by-another-call-or-for-another-address", _pop_witness(wcase, out, before=before, steps=steps),
+                              f"step {k} ({rec['op']} {rec['target']}) broadcast {b['payload']!r}")
+        _judge_write_broadcasts(ctx, wcase, out, before, writes, prefix="later-call-on-the-same-xknx-" if k else "")
+        if k and writes:
+            ctx.count("address_writes_by_later_calls")
+        for p in bus.p2p[rec["p0"]:rec["p1"]]:
+            if p["apci"] == "Restart":
+                ctx.count("restarts_sent")
+                if p["dst"] != rec["target"] or rec["op"] != "write":
+                    ctx.violation("restart-sent-to-another-address", _pop_witness(wcase, out, before=before, steps=steps),
+                                  f"step {k}: A_Restart was sent to {p['dst']}, the call programs {rec['target']}")
+                else:
+                    ctx.count("restart_to_target")
+        if rec["op"] == "scan" and rec["outcome"] == "returned":
+            truth = sorted(d["address"] for d in rec["truth"] if d["prog"])
+            if sorted(rec["result"]) != truth:
+                ctx.count("programming_mode_scan_differs_from_bus_truth")  # recorded: the statement speaks about the write
+    ctx.distinct(("seq", tuple(map(tuple, case["devices"])), repr(case["steps"]), tuple(r["outcome"] for r in steps)))
     return out
 
 
@@ -295,6 +376,7 @@ def run(ctx):
                 "serial_read_address_ok", "serial_read_none_ok", "serial_write_verified_ok", "serial_write_failed",
                 "serial_cases_with_foreign_responses", "authorize_pairs", "answers_delivered_before_confirmation",
                 "programming_mode_answers_before_confirmation", "serial_answers_before_confirmation",
+                "procedure_sequences", "later_calls_on_the_same_xknx", "address_writes_by_later_calls",
                 *(f"target_address_held_by_{co}_device" for co in CO + CO_FAULTY))
     n = 0
     one = list(itertools.product(ADDRS, (0, 1), CO))
@@ -318,6 +400,27 @@ def run(ctx):
                                 "broadcasts": [b["apci"] for b in out["bus"].broadcasts]})
     if ctx.shard == 0:
         ctx.extra["address_write_populations"] = n
+    # sequences of calls on the same XKNX: first call (check / write of TARGET / scan), then some devices enter programming mode,
+    # then a write of TARGET or of a free address
+    kinds2 = list(itertools.product(ADDRS[:2], (0, 1), CO))
+    q = 0
+    for k in range(1, 3):
+        for pop in itertools.product(kinds2, repeat=k):
+            for first in ("check", "write", "scan"):
+                for enter in itertools.product((0, 1), repeat=k):
+                    for target2 in (TARGET, FREE):
+                        n += 1
+                        q += 1
+                        if not ctx.mine(n):
+                            continue
+                        change = {str(i): {"prog": 1} for i, e in enumerate(enter) if e}
+                        steps = [{"op": first, "target": TARGET}, {"op": "write", "target": target2, "change": change}]
+                        if not ctx.quick:
+                            steps.append({"op": "write", "target": FREE if target2 == TARGET else TARGET,
+                                          "change": {str(i): {"prog": 1} for i in range(k)}})
+                        sequence_case(ctx, {"devices": [list(d) for d in pop], "latency": 0.02, "steps": steps})
+    if ctx.shard == 0:
+        ctx.extra["procedure_sequences"] = q
     sone = list(itertools.product(ADDRS[:2], (0, 1), (0, 1)))
     m = 0
     for k in range(max_dev + 1):
@@ -345,6 +448,9 @@ def replay(ctx, witness):
     case = witness.get("case")
     if case is None:
         authorize_all(ctx, witness.get("latency", 0.02))
+    elif "steps" in case:
+        case.pop("step", None)
+        sequence_case(ctx, case)
     elif "op" in case:
         serial_case(ctx, {"devices": case["devices"], "latency": case["latency"]})
     else:
